@@ -28,10 +28,10 @@ _LC = ["contracts.lifecycle"]
 _TF = ["contracts.transform"]
 _SP = ["contracts.selparse"]
 CONTRACT_MODULES = {
-    "C12": ["contracts.c12"],
-    "C04": ["contracts.c12"] + _RT + _TF,
-    "C02": _RT + _OV + _IN + _TF, "C16": _RT + _TF + ["contracts.tags"], "C01": _RT + _TF + ["contracts.tags"], "C06": _TF,
-    "C03": _OV + _IN + ["contracts.lemmas"], "C07": _OV + _IN + ["contracts.lemmas"], "C11": _IN + _OV + _TF + ["contracts.tags"] + _SP, "C05": _OV + _LC, "C09": _OV, "C17": _OV + _LC, "C10": _OV + _LC + _TF + _SP, "C14": _LC + ["contracts.refs"], "C18": _LC + _SP + ["contracts.refs"], "C15": _SP, "C13": _SP + ["contracts.c12", "contracts.refs"],
+    "C12": ["contracts.c12"] + _RT,
+    "C04": ["contracts.c12"] + _RT + _TF + _LC + _SP,
+    "C02": _RT + _OV + _IN + _TF + _LC, "C16": _RT + _TF + ["contracts.tags"], "C01": _RT + _TF + ["contracts.tags"], "C06": _TF,
+    "C03": _OV + _IN + ["contracts.lemmas"], "C07": _OV + _IN + ["contracts.lemmas"], "C11": _IN + _OV + _TF + ["contracts.tags"] + _SP + _LC, "C05": _OV + _LC, "C09": _OV, "C17": _OV + _LC, "C10": _OV + _LC + _TF + _SP, "C14": _LC + ["contracts.refs"], "C18": _LC + _SP + ["contracts.refs"], "C15": _SP, "C13": _SP + ["contracts.c12", "contracts.refs"],
 }
 
 UNIT_WALL_BUDGET = {"quick": 150, "thorough": 600}
